@@ -15,7 +15,7 @@ CFG = {
     "exhaustive": {"quick": False, "thorough": False},
     "exhaustive_note": "the vocabulary theorems are exhaustive over the regenerated tables (every FontInfo field, every attribute literal, every file-name static); the behavioural part is sampled",
     "timeout": {"quick": 600, "thorough": 7200},
-    "search_timeout": 900,
+    "search_timeout": 240,
     "trusted_base": COMMON_TRUST + [
         "lean/Norad/Spec/Ufo3Vocab.lean: the UFO 3 vocabulary typed in from the specification / fontTools.ufoLib (no offline copy of the specification); "
         "a wrong entry there shows as a failing theorem on the unchanged tree, which was checked (0 failures)",
